@@ -118,6 +118,12 @@ func localCell(a *ssa.Alloc, captured bool) bool {
 			if x.Op != token.MUL {
 				return false
 			}
+		case *ssa.Call:
+			// multierr.AppendInto(&v, err) is modelled by the explorer as an assignment to v
+			sc := x.Call.StaticCallee()
+			if sc == nil || sc.String() != "go.uber.org/multierr.AppendInto" || x.Call.Args[0] != ssa.Value(a) {
+				return false
+			}
 		case *ssa.DebugRef:
 		default:
 			return false
@@ -355,7 +361,10 @@ type ConcCfg struct {
 	// Branch names a condition that could not be evaluated, once per side ("" to ignore it).
 	Branch func(cond ssa.Value, taken bool, st *ConcState) string
 	// Inline decides whether an eligible helper is explored; nil: all.
-	Inline    func(h *ssa.Function) bool
+	Inline func(h *ssa.Function) bool
+	// Fork lets a rule split the path after an instruction that was not explored inline (an opaque call, the Extract of
+	// its result): one successor per alternative, each with the given facts about values and its own event.
+	Fork      func(in ssa.Instruction, st *ConcState) []ConcAlt
 	MaxStates int
 	// Unroll keeps loop-carried values whose integer value is evident on the path (constant-bounded counting loops are
 	// then walked iteration by iteration); all other loop-carried values are forgotten at the loop head.
@@ -373,6 +382,13 @@ type ConcCfg struct {
 	// influence anything (no use reachable from that block, not an operand of or alias target of such a register).
 	// Paths that differ only in such dead facts then coincide, which keeps large functions tractable.
 	Prune bool
+}
+
+// ConcAlt is one alternative outcome of an instruction (see ConcCfg.Fork).
+type ConcAlt struct {
+	Ev   string
+	Ints map[ssa.Value]int64
+	Nils map[ssa.Value]bool
 }
 
 // stackDepth is a placeholder kept for rules that want to know whether an event happens in the root function; the
@@ -604,6 +620,37 @@ func ConcPaths(fn *ssa.Function, cfg ConcCfg) (seqs []string, truncated bool) {
 		}
 		for k := idx; k < len(blk.Instrs); k++ {
 			in := blk.Instrs[k]
+			if ai, isCall := in.(*ssa.Call); isCall && len(ai.Call.Args) == 2 && !ai.Call.IsInvoke() {
+				if sc := ai.Call.StaticCallee(); sc != nil && sc.String() == "go.uber.org/multierr.AppendInto" {
+					// *into = multierr.Append(*into, err): the variable now holds this call's outcome, nil exactly
+					// when both were nil
+					if a := cellOf(st, ai.Call.Args[0]); a != nil {
+						var n1, k1 bool
+						if cur, has := st.mem[a]; has {
+							n1, k1 = st.IsNil(cur)
+						}
+						n2, k2 := st.IsNil(ai.Call.Args[1])
+						st = st.clone()
+						st.mem[a] = ai
+						delete(st.alias, ai)
+						delete(st.ints, ai)
+						switch {
+						case k1 && !n1, k2 && !n2:
+							st.nils[ai] = false
+						case k1 && k2:
+							st.nils[ai] = true
+						default:
+							delete(st.nils, ai)
+						}
+						if cfg.Event != nil {
+							if e := cfg.Event(in, st); e != "" {
+								ev = append(append([]string{}, ev...), e)
+							}
+						}
+						continue
+					}
+				}
+			}
 			if v, isV := in.(ssa.Value); isV {
 				// a new dynamic instance of this register: facts about the previous one (loop iteration) are stale
 				if _, isPhi := in.(*ssa.Phi); !isPhi {
@@ -692,6 +739,12 @@ func ConcPaths(fn *ssa.Function, cfg ConcCfg) (seqs []string, truncated bool) {
 					if z := intConst(0, deref(x.Type())); z != nil {
 						st = st.clone()
 						st.mem[x] = z
+					} else {
+						switch types.Unalias(deref(x.Type())).Underlying().(type) {
+						case *types.Interface, *types.Pointer, *types.Slice, *types.Map, *types.Signature, *types.Chan:
+							st = st.clone()
+							st.mem[x] = ssa.NewConst(nil, deref(x.Type()))
+						}
 					}
 				} else if stt, ok := types.Unalias(deref(x.Type())).Underlying().(*types.Struct); ok {
 					// a fresh struct: its boolean and integer fields start at zero (a later store overrides)
@@ -1019,6 +1072,25 @@ func ConcPaths(fn *ssa.Function, cfg ConcCfg) (seqs []string, truncated bool) {
 			case *ssa.Jump:
 				enter(blk, blk.Succs[0], ev, stack, st)
 				return
+			}
+			if cfg.Fork != nil {
+				if alts := cfg.Fork(in, st); len(alts) > 0 {
+					for _, a := range alts {
+						ns := st.clone()
+						for v, kv := range a.Ints {
+							ns.ints[v] = kv
+						}
+						for v, n := range a.Nils {
+							ns.nils[stripConv(v)] = n
+						}
+						nev := ev
+						if a.Ev != "" {
+							nev = append(append([]string{}, ev...), a.Ev)
+						}
+						run(blk, k+1, nev, stack, ns)
+					}
+					return
+				}
 			}
 		}
 	}
